@@ -37,8 +37,10 @@ class RecBinary(object):
         self.events = []
 
     def write(self, data):
-        if not isinstance(data, bytes):
+        if isinstance(data, str):
             raise TypeError("a bytes-like object is required, not 'str'")
+        if isinstance(data, (bytearray, memoryview)):
+            data = bytes(data)  # real binary files take any bytes-like object and copy it at once
         self.events.append(("write", data))
 
     def writelines(self, lines):
@@ -162,6 +164,23 @@ class _RecBytes(io.BytesIO):
     def flush(self):
         self.calls.append(("flush",))
         return io.BytesIO.flush(self)
+
+
+class _RecWrapper(io.TextIOWrapper):
+    """A real TextIOWrapper (UTF-16, no newline translation) recording write()/flush() calls."""
+
+    def __init__(self, raw):
+        io.TextIOWrapper.__init__(self, raw, encoding="utf-16-le", newline="")
+        self.calls = []
+
+    def write(self, data):
+        n = io.TextIOWrapper.write(self, data)
+        self.calls.append(("write", len(data)))
+        return n
+
+    def flush(self):
+        self.calls.append(("flush",))
+        return io.TextIOWrapper.flush(self)
 
 
 class _RecText(io.StringIO):
@@ -294,7 +313,13 @@ def body_E1(ctx):
 
     b = _RecBytes()
     t = _RecText()
-    how = ctx.choose(4, "how the destination is made")
+    how = ctx.choose(5, "how the destination is made")
+    if how == 4:
+        # a real text-mode file object (io.TextIOWrapper, as open(path, "w", encoding=...) returns)
+        # with an encoding other than UTF-8; it has a .buffer, which is none of the destination's business
+        t = None
+        raw_t = io.BytesIO()
+        tw = _RecWrapper(raw_t)
     if how == 3:
         import codecs
 
@@ -312,7 +337,7 @@ def body_E1(ctx):
 
         db = FileDestination(file=b, encoder=Enc)
         dt = FileDestination(file=t, encoder=Enc)
-    elif how == 3:
+    elif how in (3, 4):
         db = FileDestination(file=b, json_default=my_default)
         dt = FileDestination(file=tw, json_default=my_default)
     else:
@@ -330,7 +355,7 @@ def body_E1(ctx):
         raise
     raw = b.getvalue()
     # the one-write-per-line discipline, for payloads of every size
-    for fobj, label in ((b, "binary"), (t, "text")):
+    for fobj, label in ((b, "binary"), (t if how != 4 else tw, "text")):
         if fobj is None:
             continue
         io_calls = [c for c in fobj.calls if c != ("write", 0)]  # the mode probe writes nothing
@@ -353,7 +378,13 @@ def body_E1(ctx):
         ctx.fail("line is not valid JSON for %s: %r" % (name, e))
     ctx.check(isinstance(decoded, dict), "line does not decode to an object")
     ctx.check(_same(decoded, exp_message), "decoded line differs from the logged message for %s depth %d: %r", name, depth, decoded if depth < 4 else "...")
-    text_content = t.getvalue() if t is not None else raw_t.getvalue().decode("utf-8")
+    if how == 4:
+        try:
+            text_content = raw_t.getvalue().decode("utf-16-le")
+        except UnicodeDecodeError as e:
+            ctx.fail("the bytes behind the UTF-16 text file are not UTF-16: %r (%s)" % (raw_t.getvalue()[:60], e))
+    else:
+        text_content = t.getvalue() if t is not None else raw_t.getvalue().decode("utf-8")
     ctx.check(text_content == raw.decode("utf-8"), "text-mode and binary-mode files differ for %s (text file received %r)", name, text_content[:80])
     if custom or name in ("path", "set", "set-mixed", "set-none", "set-empty", "complex"):
         ctx.check(len(calls) >= 1, "json_default was not consulted for %s", name)
@@ -397,6 +428,6 @@ OBLIGATIONS = [
         shards={"quick": [{"deep": 50}], "thorough": [{"deep": 50}, {"deep": 200}]},
         twin=[{"deep": 50, "twin_label": "rich-nested"}],
         timeout={"quick": 100, "thorough": 300},
-        bounds={"quick": "29 JSON-native corner classes (incl. texts of 4 KiB, 8 KiB, 64 KiB, 1 MiB and a 70 KB list) + 8 rich values (path, date, time, 4 sets, complex) + custom json_default, nesting depth {0,1,3,50,250,300} in lists or dicts, binary and text files, made by FileDestination(json_default=) / FileDestination(encoder=) / to_file() / over a codecs.getwriter text stream - witnesses per class, not a for-all claim"},
+        bounds={"quick": "29 JSON-native corner classes (incl. texts of 4 KiB, 8 KiB, 64 KiB, 1 MiB and a 70 KB list) + 8 rich values (path, date, time, 4 sets, complex) + custom json_default, nesting depth {0,1,3,50,250,300} in lists or dicts, binary and text files, made by FileDestination(json_default=) / FileDestination(encoder=) / to_file() / over a codecs.getwriter text stream / over a real UTF-16 io.TextIOWrapper - witnesses per class, not a for-all claim"},
     ),
 ]
